@@ -133,6 +133,16 @@ pub fn run(rep: &mut Rep) {
         if v1.nullifier != want_null {
             rep.violation("nullifier:not-H(H(s,e,m))", json!({"secret": fr_s(&secret), "ext": fr_s(&ext), "id": id, "got": fr_s(&v1.nullifier), "expected": fr_s(&want_null)}));
         }
+        // both documented input forms (bare proof+values, or followed by signal_len | signal), independently per
+        // argument; the two signals usually differ in length, so the two arguments do too
+        let form = (i / 2) % 4;
+        let (m1, m2) = match form {
+            0 => (m1, m2),
+            1 => (enc_verify_request(&m1, &s1), enc_verify_request(&m2, &s2)),
+            2 => (enc_verify_request(&m1, &s1), m2),
+            _ => (m1, enc_verify_request(&m2, &s2)),
+        };
+        rep.stratum(format!("recover-form|{}|len1{}len2", ["bare,bare", "signal,signal", "signal,bare", "bare,signal"][form], match m1.len().cmp(&m2.len()) { std::cmp::Ordering::Less => "<", std::cmp::Ordering::Equal => "==", std::cmp::Ordering::Greater => ">" }));
         match recover(&rln, &m1, &m2) {
             Rec::Secret(o) if o == fr_le32(&secret).to_vec() => {}
             Rec::Secret(o) => rep.violation("recover:wrong-secret", json!({"secret": fr_s(&secret), "ext": fr_s(&ext), "id": id, "got": hex(&o), "signals": [hex_short(&s1), hex_short(&s2)]})),
